@@ -56,3 +56,20 @@ pub trait AsyncWhere {
 pub trait ConstFirstShape<const N: usize, T: Copy + 'static, const M: usize> {
     fn chunk(&self, value: T) -> ([T; N], [T; M]);
 }
+
+// two `#[cfg]`-exclusive declarations of one method name (valid Rust: at most one survives)
+#[entrait(unimock = false)]
+pub trait CfgAlternatives {
+    #[cfg(all())]
+    fn now(&self) -> u64;
+    #[cfg(any())]
+    fn now(&self) -> u128;
+    fn other(&self) -> u8;
+}
+#[entrait(delegate_by = ref, unimock = false)]
+pub trait CfgAlternativesRef {
+    #[cfg(any())]
+    fn now(&self) -> u128;
+    #[cfg(all())]
+    fn now(&self) -> u64;
+}
